@@ -159,6 +159,11 @@ def main():
                 tech += "; thorough tier adds a coverage-guided libFuzzer workload under AddressSanitizer driving the same monitor"
                 text += (" Thorough additionally: 16 libFuzzer processes (SanitizerCoverage feedback, ASan, seeded corpus + dictionary, bounded by -runs) "
                          "drive the same per-input monitor; recorded failures are confirmed and minimised on the release build.")
+            if pid not in ("C16", "C20"):
+                text += (" Every workload runs on two builds of the harness: with debug assertions and overflow checks on (debug_assert!, arithmetic "
+                         "overflow, cfg(debug_assertions) paths) and with both off (the profile users ship; cfg(not(debug_assertions)) paths).")
+            if pid == "C16":
+                text += " The positive program is built and run in the dev profile and in a release profile without debug assertions."
             if pid in MEMCHECK:
                 tech += "; thorough tier re-runs a slice of the workload under valgrind memcheck (uninitialised-value use, invalid accesses, definite leaks)"
                 text += (" Thorough additionally: the release build of the same engine under valgrind memcheck (16 processes on a slice of the quick workload); "
